@@ -198,6 +198,10 @@ func main() {
 	wg.Wait()
 
 	// ---- verdict
+	outRoot := *root
+	if os.Getenv("VERIF_NO_EVIDENCE") != "" {
+		outRoot = work // trial runs against scratch copies must not touch evidence/ and replays/
+	}
 	var kf []known
 	if b, err := os.ReadFile(filepath.Join(*root, "known_findings.json")); err == nil {
 		if err := json.Unmarshal(b, &kf); err != nil {
@@ -230,7 +234,7 @@ func main() {
 		}
 		nviol += len(recs)
 		h := sha256.Sum256([]byte(s))
-		rp := filepath.Join(*root, "replays", *prop, hex.EncodeToString(h[:6])+".json")
+		rp := filepath.Join(outRoot, "replays", *prop, hex.EncodeToString(h[:6])+".json")
 		_ = fw.WriteJSON(rp, map[string]any{
 			"property": *prop, "seed": seed, "tier": *tier, "case": recs[0].Idx, "signature": s,
 			"detail": recs[0].Detail, "sample": recs[0].Sample, "cases_with_this_signature": len(recs),
@@ -277,7 +281,7 @@ func main() {
 		"coverage": cov, "assumptions": meta.Assumptions,
 		"wall_s": time.Since(start).Seconds(), "violations": nviol,
 	}
-	if err := fw.WriteJSON(filepath.Join(*root, "evidence", *prop+".json"), ev); err != nil {
+	if err := fw.WriteJSON(filepath.Join(outRoot, "evidence", *prop+".json"), ev); err != nil {
 		fmt.Fprintln(os.Stderr, "driver: evidence:", err)
 		os.Exit(2)
 	}
